@@ -33,7 +33,7 @@ STATEFUL = True
 THEOREMS = [
     "C05.wf_of_list_constructor", "C05.wf_of_map_constructor", "C05.list_derivations", "C05.list_items",
     "C05.map_derivations", "C05.map_items", "C05.map_string_keys", "C05.dict_key_order", "C05.dict_last_value",
-    "C05.seq_items", "C05.empty_and_absent", "C05.final_delim", "C05.final_delim_map",
+    "C05.seq_items", "C05.empty_and_absent", "C05.final_delim", "C05.final_delim_map", "C05.nesting",
 ]
 
 RULE = ("one case = one grammar + up to 12 rendered values; distinct by protocol text; non-trivial = at least one "
@@ -380,12 +380,15 @@ def match(exp, act, parser, path="value"):
     if "map" in exp:
         if not isinstance(act, dict):
             return "%s: expected a dict, got %s" % (path, _short(act))
-        keys = [_strip(k) for k in act.keys()]
-        want = [k for k, _ in exp["map"]]
-        if keys != want:
-            return "%s: keys %s, denoted (in order) %s" % (path, _short(keys), _short(want))
-        for (k, e), a in zip(exp["map"], act.values()):
-            m = match(e, a, parser, "%s[%r]" % (path, k))
+        if len(act) != len(exp["map"]):
+            return "%s: dict with keys %s, denoted keys (in order) %s" % (
+                path, _short([_strip(k) for k in act.keys()]), _short([k for k, _ in exp["map"]]))
+        for (k, e), (ak, a) in zip(exp["map"], act.items()):
+            m = match(k, ak, parser, "%s.key" % path)
+            if m:
+                return "%s: keys %s, denoted (in order) %s (%s)" % (
+                    path, _short([_strip(x) for x in act.keys()]), _short([x for x, _ in exp["map"]]), m)
+            m = match(e, a, parser, "%s[%s]" % (path, _short(k)))
             if m:
                 return m
         return None
@@ -476,7 +479,7 @@ def f1_spec(cfg, smart, keep):
             "keep": keep, "smart": smart, "start": "E"}
 
 
-def f1_gen(rng, cfg, depth=0, big=False):
+def f1_gen(rng, cfg, depth=0, big=False, nest=True):
     br, dl, nullable, afd, opt = cfg
     n = rng.choice([0, 0, 1, 1, 2, 3, 4, 6] if not big else [0, 1, 2, 3, 5, 8, 13])
     items = []
@@ -484,8 +487,8 @@ def f1_gen(rng, cfg, depth=0, big=False):
         k = rng.random()
         if nullable and k < 0.25:
             items.append(None)
-        elif br and depth < (2 if not big else 4) and k < 0.5:
-            items.append(f1_gen(rng, cfg, depth + 1, big))
+        elif nest and br and depth < (2 if not big else 4) and k < 0.5:
+            items.append(f1_gen(rng, cfg, depth + 1, big, nest))
         else:
             items.append(rng.choice(WORDS))
     fin = dl and n > 0 and rng.random() < 0.35
@@ -522,7 +525,7 @@ def f1_render(rng, node, cfg):
     return s
 
 
-def f1_expected(node, cfg):
+def f1_expected(node, cfg, own_item=True):
     """('ok', value) or ('err',): what the text rendered from `node` denotes under the grammar of `cfg`"""
     br, dl, nullable, afd, opt = cfg
     eff_afd = afd if afd is not None else (dl and br)
@@ -530,7 +533,7 @@ def f1_expected(node, cfg):
     vals = []
     for it in items:
         if isinstance(it, list):
-            r = f1_expected(it, cfg)
+            r = f1_expected(it, cfg, own_item)
             if r[0] == 'err':
                 return r
             vals.append(r[1])
@@ -541,12 +544,12 @@ def f1_expected(node, cfg):
             pass
         elif nullable:
             vals.append(None)
-        elif opt and br:
+        elif opt and br and own_item:
             pass
         else:
             return ('err',)
     # an optional bracketed list used as its own item makes the item nullable (documented, not a defect)
-    item_nullable = nullable or (bool(opt) and br)
+    item_nullable = nullable or (bool(opt) and br and own_item)
     if fin and not eff_afd and not nullable and item_nullable:
         vals.append(None)
     if item_nullable:
@@ -559,17 +562,17 @@ def f1_expected(node, cfg):
     return ('ok', vals)
 
 
-def f1_items(rng, cfg, n_texts, big=False):
+def f1_items(rng, cfg, n_texts, big=False, nest=True):
     br, dl, nullable, afd, opt = cfg
     items = []
     for _ in range(n_texts):
-        node = f1_gen(rng, cfg, big=big)
+        node = f1_gen(rng, cfg, big=big, nest=nest)
         absent = bool(opt) and rng.random() < 0.15
         text = ws(rng, False) + ("" if absent else f1_render(rng, node, cfg)) + " 7" + ws(rng, False)
         if absent:
             exp = ("ok", {"te": "E", "ch": [None, "7"]})
         else:
-            r = f1_expected(node, cfg)
+            r = f1_expected(node, cfg, nest)
             exp = ("ok", {"te": "E", "ch": [r[1], "7"]}) if r[0] == "ok" else ("err",)
         tags = ["f1"]
         if absent:
@@ -909,6 +912,133 @@ def f2_configs(rng, n):
         yield cfg, keep
 
 
+# ---- family 3: token items, non-terminal delimiters, composite map keys
+def f3a_spec(cfg, smart):
+    br, dl, nullable, afd, opt = cfg
+    return {"prods": [["E", "plain", [["LIST", "NUMBER"]]],
+                      ["LIST", "list", ["[" if br else None, "WORD", "," if dl else None, "]" if br else None, afd, opt]]],
+            "keep": None, "smart": smart, "start": "E"}
+
+
+def f3b_spec(afd, nullable, smart, keep):
+    return {"prods": [["E", "plain", [["LIST", "NUMBER"]]],
+                      ["LIST", "list", ["[", "ITEM", "SEP", "]", afd, None]],
+                      ["SEP", "plain", [[","], [";"]]],
+                      ["ITEM", "plain", [["WORD"], ["LIST"]] + ([None] if nullable else [])]],
+            "keep": keep, "smart": smart, "start": "E"}
+
+
+def f3c_spec(afd, smart, keep):
+    return {"prods": [["E", "plain", [["M"]]],
+                      ["M", "map", ["{", "KEY", ":", "VALUE", ",", "}", None, afd]],
+                      ["KEY", "plain", [["WORD"], ["NUMBER"], ["PATH"]]],
+                      ["PATH", "plain", [["@", "WORD", "WORD"]]],
+                      ["VALUE", "plain", [["WORD"], ["M"]]]],
+            "keep": keep, "smart": smart, "start": "E"}
+
+
+def f3c_gen(rng, d=0):
+    n = rng.choice([0, 1, 2, 3, 4])
+    pairs, used = [], set()
+    for _ in range(n):
+        r = rng.random()
+        if r < 0.5:
+            k = rng.choice(["k", "kk", "z"])
+        elif r < 0.75:
+            k = str(rng.randrange(4))
+        else:
+            k = ["@", rng.choice(WORDS), rng.choice(WORDS)]
+            if tuple(k) in used:
+                continue          # a composite key is a TElement (identity): repeated ones are not generated
+            used.add(tuple(k))
+        v = f3c_gen(rng, d + 1) if d < 3 and rng.random() < 0.35 else rng.choice(WORDS)
+        pairs.append([k, v])
+    return ["M", pairs, bool(pairs) and rng.random() < 0.3]
+
+
+def f3c_render(rng, node):
+    s = "{" + ws(rng)
+    for i, (k, v) in enumerate(node[1]):
+        if i:
+            s += "," + ws(rng)
+        ks = k if isinstance(k, str) else "@" + ws(rng) + k[1] + sep(rng) + k[2]
+        s += ks + ws(rng) + ":" + ws(rng) + (v if isinstance(v, str) else f3c_render(rng, v)) + ws(rng)
+    if node[2]:
+        s += "," + ws(rng)
+    return s + "}"
+
+
+def f3c_expected(node, afd):
+    if node[2] and not afd:
+        raise _Reject()
+    out = []
+    for k, v in node[1]:
+        e = v if isinstance(v, str) else f3c_expected(v, afd)
+        if isinstance(k, str):
+            for ent in out:
+                if ent[0] == k:
+                    ent[1] = e
+                    break
+            else:
+                out.append([k, e])
+        else:
+            out.append([{"te": "PATH", "ch": k}, e])
+    return {"map": out}
+
+
+def f3_cases(rng, tier):
+    quick = tier == "quick"
+    for cfg in list_configs():
+        if cfg[2]:
+            continue                      # a token is never nullable
+        for smart in (True, False):
+            for _ in range(2 if quick else 10):
+                items = f1_items(rng, cfg, 8, nest=False)
+                for it in items:
+                    it["tags"] = ["f3-token-items" if t == "f1" else t for t in it["tags"]]
+                c = make_case(f3a_spec(cfg, smart), items, {"kind": "f3a", "cfg": list(cfg)})
+                if c is not None:
+                    yield c
+    for _ in range(60 if quick else 600):
+        afd, nullable, smart = rng.choice([None, True, False]), rng.random() < 0.4, rng.random() < 0.5
+        keep = rng.choice([None, ["SEP"], ["WORD"]])
+        cfg = (True, True, nullable, afd, None)
+        items = []
+        for _ in range(8):
+            node = f1_gen(rng, cfg)
+            text = f1_render(rng, node, cfg)
+            # every second delimiter is written as ';'
+            out, n = [], 0
+            for ch in text:
+                if ch == ",":
+                    n += 1
+                    out.append(";" if n % 2 == 0 else ",")
+                else:
+                    out.append(ch)
+            r = f1_expected(node, cfg)
+            exp = ["ok", {"te": "E", "ch": [r[1], "7"]}] if r[0] == "ok" else ["err"]
+            items.append({"text": "".join(out) + " 7", "exp": exp, "tags": ["f3-nonterminal-delimiter"], "size": _size(node)})
+        c = make_case(f3b_spec(afd, nullable, smart, keep), items, {"kind": "f3b", "keep": keep})
+        if c is not None:
+            yield c
+    for _ in range(60 if quick else 600):
+        afd, smart = rng.choice([None, True, False]), rng.random() < 0.5
+        # (keeping KEY makes every key a TElement, compared by identity: outside the property)
+        keep = rng.choice([None, ["WORD"], ["PATH"], ["VALUE"]])
+        items = []
+        for _ in range(8):
+            node = f3c_gen(rng)
+            try:
+                exp = ["ok", f3c_expected(node, True if afd is None else afd)]
+            except _Reject:
+                exp = ["err"]
+            items.append({"text": ws(rng) + f3c_render(rng, node) + ws(rng), "exp": exp, "tags": ["f3-composite-keys"],
+                          "size": _size(node)})
+        c = make_case(f3c_spec(afd, smart, keep), items, {"kind": "f3c", "keep": keep})
+        if c is not None:
+            yield c
+
+
 # ------------------------------------------------------------------ building cases
 def build_lines(case):
     lines = [case["g"]]
@@ -988,7 +1118,7 @@ def gen_cases(rng, tier):
     yield from tpl_cases(rng, tier)
     # family 1
     keeps = [None, ["ITEM"], ["WORD"], ["LIST"], ["ITEM", "LIST", "WORD"]]
-    rounds = 3 if quick else 60
+    rounds = 6 if quick else 60
     for cfg in list_configs():
         for smart in (True, False):
             for r in range(rounds):
@@ -1005,12 +1135,13 @@ def gen_cases(rng, tier):
                 if c is not None:
                     yield c
     # family 2
-    for cfg, keep in f2_configs(rng, 220 if quick else 6000):
+    for cfg, keep in f2_configs(rng, 600 if quick else 6000):
         spec = f2_spec(cfg, keep)
         items = f2_items(rng, cfg, 8 if quick else 12, maxd=4 if quick else 6)
         c = make_case(spec, items, {"kind": "f2", "cfg": cfg, "keep": keep})
         if c is not None:
             yield c
+    yield from f3_cases(rng, tier)
 
 
 def search_cases(rng, tier):
